@@ -376,6 +376,10 @@ type Options struct {
 	WorkerBin string
 	Seed      int64
 	Only      int // run only this case (-1: all)
+	// EvidenceDir / ReplayDir: where evidence and replay files go (default <Root>/evidence, <Root>/replays).
+	// Runs against a scratch tree (self-tests with VERIF_REPO set) must not overwrite the evidence of /repo.
+	EvidenceDir string
+	ReplayDir   string
 }
 
 type violRec struct {
@@ -654,6 +658,9 @@ func ParentMain(o Options) int {
 	}
 	exit := 0
 	repDir := filepath.Join(o.Root, "replays", o.ID)
+	if o.ReplayDir != "" {
+		repDir = filepath.Join(o.ReplayDir, o.ID)
+	}
 	nUnknown := 0
 	for k, sig := range unknownOrder {
 		gr := unknown[sig]
@@ -748,8 +755,12 @@ func ParentMain(o Options) int {
 		"violations":  len(unknownOrder),
 	}
 	b, _ := json.MarshalIndent(ev, "", " ")
-	os.MkdirAll(filepath.Join(o.Root, "evidence"), 0o755)
-	if err := os.WriteFile(filepath.Join(o.Root, "evidence", o.ID+".json"), b, 0o644); err != nil {
+	evDir := filepath.Join(o.Root, "evidence")
+	if o.EvidenceDir != "" {
+		evDir = o.EvidenceDir
+	}
+	os.MkdirAll(evDir, 0o755)
+	if err := os.WriteFile(filepath.Join(evDir, o.ID+".json"), b, 0o644); err != nil {
 		fmt.Fprintln(os.Stderr, err)
 		return 2
 	}
